@@ -436,6 +436,13 @@ func (rm *room) viaReused(ev gmsl.PDU, contents []gmsl.PDU, want bool, desc stri
 		rm.r.Probe("degraded_reused_checker_unavailable")
 	}
 	got := verdict(ru.checker.Allowed(ev))
+	if got && ev.Type() == spec.MRoomPowerLevels && ev.StateKey() != nil && *ev.StateKey() == "" {
+		// accepted by a checker that has judged other events before (as the
+		// library's resolvers do): non-escalation is due relative to the auth
+		// events supplied for THIS event, whatever the checker saw earlier
+		rm.r.Probe("power_levels_accepted_by_reused_checker")
+		rm.checkNE(ev, contents)
+	}
 	if got != want {
 		rm.r.Violate("C09", "history", "reused_checker", "a checker reused across %d events says allowed=%v, a fresh checker on the same auth events says %v, for %s", ru.n, got, want, desc)
 	}
